@@ -80,7 +80,7 @@ def l1_codec_e2(tier='quick', case=None, seed=0):
         tot += dt
         res.append((name, r, model))
     out = dict(solver_calls=len(res) + 1, solver_s=round(tot, 3), paths=0, nontrivial=pts + len(res),
-               detail='; '.join('%s=%s' % (a, b) for a, b, _ in res),
+               detail='; '.join('%s=%s' % (a, b) for a, b, _ in res) + ' | ' + T.cross_summary(),
                samples=[dict(lemma='L1_codec_unbounded', kind='index expression (from source)', expr=ast.unparse(target)),
                         dict(lemma='L1_codec_unbounded', kind='reachability witness', input=m0)])
     sat = [x for x in res if x[1] == 'sat']
